@@ -630,3 +630,108 @@ def probe_for(it):
     if it.kind in ("struct", "word"):
         return "fn zz_probe(p: &%s)\n{\n}\n" % it.name, 405
     return None, None
+
+
+# ------------------------------------------------ structures (for shrinking) --
+def item_to_json(it):
+    return {"name": it.name, "kind": it.kind, "body": it.body, "head": it.head, "sig": list(it.sig) if it.sig else None}
+
+
+def program_from_json(items):
+    P = Program()
+    for d in items:
+        P.add(Item(d["name"], d["kind"], d["body"], d["head"], tuple(d["sig"]) if d.get("sig") else None))
+    return P.finish()
+
+
+def split_to_json(sp, item_order=None):
+    return {"items": [item_to_json(it) for it in sp.program.items], "assign": dict(sp.assign), "files": list(sp.files),
+            "extra_imports": {str(k): list(v) for k, v in sp.extra_imports.items()},
+            "renames": {str(k): dict(v) for k, v in sp.renames.items()},
+            "dup_imports": [list(x) for x in sorted(sp.dup_imports)],
+            "styles": {"%d,%d" % k: v for k, v in sp.import_style.items()},
+            "item_order": item_order or {}}
+
+
+def split_from_json(d):
+    P = program_from_json(d["items"])
+    sp = Split.__new__(Split)
+    sp.program = P
+    sp.assign = {k: v for k, v in d["assign"].items() if k in P.by_name}
+    sp.files = list(d["files"])
+    sp.k = len(sp.files)
+    sp.pub = set()
+    sp.extra_imports = {int(k): list(v) for k, v in d.get("extra_imports", {}).items()}
+    sp.imports = {}
+    sp.import_style = {}
+    sp.renames = {int(k): {a: b for a, b in v.items() if a in P.by_name} for k, v in d.get("renames", {}).items()}
+    sp.dup_imports = set()
+    sp.compute()
+    for key, v in d.get("styles", {}).items():
+        a, b = key.split(",")
+        sp.import_style[(int(a), int(b))] = v
+    for a, b in d.get("dup_imports", []):
+        if b in sp.imports.get(a, []):
+            sp.dup_imports.add((a, b))
+    return sp
+
+
+def ordered_file_map(sp, item_order):
+    """file_map with a recorded (not random) order of items per module."""
+    out = {}
+    P = sp.program
+    for m in range(sp.k):
+        order = [n for n in item_order.get(str(m), []) if n in P.by_name and sp.assign.get(n) == m]
+        rest = [it.name for it in P.items if sp.assign[it.name] == m and it.name not in order]
+        names = order + rest
+        imports = []
+        for t in list(sp.imports[m]):
+            path = sp.import_style.get((m, t), sp.files[t])
+            imports.append('import "%s";\n' % path)
+            if (m, t) in sp.dup_imports:
+                imports.append('import "%s";\n' % path)
+        text = "".join(imports) + "\n" + "\n".join(P.by_name[n].text(n in sp.pub) for n in names)
+        for old, new in sp.renames.get(m, {}).items():
+            text = rename_ident(text, old, new)
+        if not names:
+            text += "\n"
+        out[sp.files[m]] = text
+    return out
+
+
+def drop_items(items, removed):
+    """Remove the named items, everything that depends on them (transitively),
+    and the lines of `main` that mention them (or locals those lines declared)."""
+    P = program_from_json(items)
+    removed = set(removed) - {"main"}
+    changed = True
+    while changed:
+        changed = False
+        for it in P.items:
+            if it.name not in removed and it.name != "main" and it.deps & removed:
+                removed.add(it.name)
+                changed = True
+    out = []
+    for d in items:
+        if d["name"] in removed:
+            continue
+        if d["name"] == "main":
+            d = dict(d)
+            d["body"] = filter_main(d["body"], removed)
+        out.append(d)
+    return out
+
+
+def filter_main(body, removed):
+    lines = body.split("\n")
+    dead_locals = set()
+    out = []
+    for line in lines:
+        words = set(IDENT.findall(strip_strings(line)))
+        if words & removed or words & dead_locals:
+            m = re.match(r"\s*var (\w+)", line)
+            if m:
+                dead_locals.add(m.group(1))
+            continue
+        out.append(line)
+    return "\n".join(out)
